@@ -254,7 +254,7 @@ class Verdict:
             os.makedirs(REPLAYS, exist_ok=True)
             path = os.path.join(REPLAYS, "%s.json" % self.prop)
             with open(path, "w") as f:
-                json.dump({"property": self.prop, "repo_hash": repo_hash(),
+                json.dump({"property": self.prop, "repo_hash": repo_hash(), "tier": os.environ.get("VERIF_CURRENT_TIER", "quick"),
                            "violations": [{"record": r, "what": d} for r, d in self.violations[:200]]}, f, indent=1)
             for _, d in self.violations[:12]:
                 print("  violation: %s" % d)
